@@ -91,6 +91,10 @@ def gen_members(rng, nmax=60):
                 recs.insert(rng.randrange(len(recs) + 1), ("size", None))
             m["pax"] = recs or [("comment", "x")]
             m["visor_pax"] = rng.random() < 0.3
+            # the Solaris spelling of the extended header ('X') is read like the POSIX one ('x')
+            m["pax_type"] = rng.choice([b"x", b"x", b"X"])
+            if kind == "file" and any(k_ == "size" for k_, _ in recs) and rng.random() < 0.4:
+                m["hdr_size_zero"] = True
             m["pax_first"] = rng.random() < 0.5
         if kind in ("file", "std", "empty") and not name.endswith("/"):
             # regular files may carry the old-style NUL type flag or the 'contiguous file' flag
@@ -268,6 +272,7 @@ def run(case: dict, ctx) -> dict:
     cnt["gzip_cases"] = int(gz)
     cnt["longname_members"] = sum(1 for m in members if m.get("longname"))
     cnt["members_with_data_before_their_header"] = sum(1 for m in members if m.get("alias_of") is not None)
+    cnt["members_sized_by_pax_record_only"] = sum(1 for m in members if m.get("hdr_size_zero"))
     cnt["members_with_pax_records"] = sum(1 for m in members if m.get("pax"))
     cnt["members_with_pax_size_record"] = sum(1 for m in members if any(k_ == "size" for k_, _ in m.get("pax") or []))
     cnt["inline_std_members"] = kinds.count("std")
